@@ -1359,6 +1359,10 @@ class Exec:
 
     def setattr(self, base, attr, v, node=None):
         if isinstance(base, Obj):
+            if attr == "fitted_state_" and base.tag == "estimator" and isinstance(v, Opaque) and v.tag == "fitted-state":
+                base.fields["$state"], base.fields["$fitted"] = v.term, True      # the ghost fitted attribute of an opaque estimator
+                base.events.append(("set", attr))
+                return
             base.fields[attr] = v
             base.events.append(("set", attr))
             return
